@@ -117,6 +117,21 @@ pub fn exec(op: &str, a: &[Vec<u8>]) -> Option<Resp> {
                 Resp::Ok(o)
             }
         },
+        "ed.sum_many" => {
+            if a[0].len() % 32 != 0 {
+                return Some(Resp::Rej);
+            }
+            let mut acc = Aff::IDENTITY;
+            for c in a[0].chunks(32) {
+                match Aff::decompress(&a32(c)) {
+                    Some(p) => acc = acc.add(&p),
+                    None => return Some(Resp::Rej),
+                }
+            }
+            let mut o = acc.compress().to_vec();
+            o.extend_from_slice(&acc.compress());
+            Resp::Ok(o)
+        }
         "ed.consts" => {
             let mut o = vec![];
             let b = Aff::basepoint().compress();
